@@ -84,9 +84,24 @@ class World:
             kern.map_update(self.ec.programs, struct.pack("<I", index),
                             struct.pack("<I", self.gl.fd))
         self.sterile = bytes(self.sg.packet.sterile(index, USER_ETHERTYPE))
-        self.writers = [(start + 14, stop + 14 - 2, cmd.value,
-                         self.sg.packet.counters[stop - 2])
-                        for start, stop, cmd in self.sg.packet.on_the_fly]
+        # the write datagrams of the cyclic frame, found by parsing the
+        # assembled (active) frame independently - not from the packet's
+        # own bookkeeping of what it disabled; expected working counters:
+        # one terminal per direct write, all FMMU terminals for the LWR
+        from . import frames as _frames
+        act = bytes(self.sg.packet.assemble(index, USER_ETHERTYPE))
+        dgs = _frames.parse(act)[2]
+        self.writers = []
+        for d in dgs[1:]:
+            if d.cmd in (2, 5, 8, 11):      # APWR FPWR BWR LWR
+                exp = layout.count("f") if d.cmd == 11 else 1
+                self.writers.append((d.hdr_pos + 14, d.wkc_pos + 14, d.cmd,
+                                     exp))
+        own = sorted((start + 14, stop + 14 - 2, cmd.value,
+                      self.sg.packet.counters[stop - 2])
+                     for start, stop, cmd in self.sg.packet.on_the_fly)
+        self.writers_differ = None if own == sorted(self.writers) else \
+            dict(parsed=sorted(self.writers), packet_says=own)
         # V world
         self.mem = self.dl.memory()
         pm = self.mem.maps[self.ec.programs]
